@@ -24,7 +24,7 @@ Print Assumptions C47_force_decision_is_queue.
 Theorem C47_force_dispatch : forall s T skip b n c s' fr e,
   (dispatch s (OSched T true skip b) c = (s', fr, e) -> forallb force_frame fr = true /\ no_body_event e) /\
   (dispatch s (OBulk T true n b) c = (s', fr, e) -> forallb force_frame fr = true /\ no_body_event e).
-Proof. intros. split; [apply force_dispatch | apply force_dispatch_bulk]. Qed.
+Proof. exact force_dispatch_both. Qed.
 Print Assumptions C47_force_dispatch.
 
 (* ... and with numThreads >= 1 every step of a force frame pushes force frames only (no packaged wrapper, no raw functor call, no body) and
